@@ -71,10 +71,12 @@ type Obl struct {
 	NDecls  int
 	Pos     string
 	Expect  string // "unsat" for proof obligations, "sat" for covers
+	Pre     *Obl   // post-call cover: the cover of the state before the call (solved only if this one is refuted)
 	Result  string
 	Solver  string
 	Time    float64
 	Model   string
+	Note    string
 	Src     string
 	raw     string
 	ctx     *FnCtx
@@ -94,6 +96,7 @@ type FnCtx struct {
 	vals  map[ssa.Value]interface{}
 	regSort map[string]string
 	declared map[string]bool
+	tfGuard  string // guard under which typeFacts assumes (empty: unconditional)
 	entry *State
 	letVals map[string]Term
 	retNames []string
